@@ -7,6 +7,7 @@ nbr <K> <bits>^K                                   → <index> ~d | panic
 next <street> <K> <N> (<H point> <bits>^K)^N       → ok <k> (<mass> <n> (<code> <count>)*)^k | panic   (k = street.k() from RP.Gen)
 lookup <street> <K> <N> (<bits>^K)^N               → ok <code>^N | panic
 metric <street> <K> <bits>^(K·K)                   → <n> (<key> ~v)*
+dens <H> <code>                                    → ~v        (Histogram::density)
 vdist <H point> <H centroid>                       → ~v        (Equity::variation of RP.Transport, Float32)
 H = <n> <mass> (<code> <count>)*
 ``` -/
@@ -91,6 +92,13 @@ def handle (line : String) : String :=
         | none => "panic"
       | _ => "bad-op"
     | _, _, _ => "bad-op"
+  | "dens" :: rest =>
+    match parseHist rest with
+    | some (h, [a]) =>
+      match nat? a with
+      | some a => fmt32 (density h a : F)
+      | none => "bad-op"
+    | _ => "bad-op"
   | "vdist" :: rest =>
     match parseHist rest with
     | some (x, r1) =>
